@@ -16,8 +16,8 @@ def compare_section(ctx, rule, which, section, T, R, per_item_label):
         key = "%s/%s=%s" % (section, per_item_label, st)
         if st in diffs:
             kind, detail = diffs[st][0]
-            ctx.ob(rule, key + "/" + kind, False, detail + (" (+%d more)" % (len(diffs[st]) - 1) if len(diffs[st]) > 1 else ""),
-                   "%s tokenizer, %s" % (which, st))
+            ctx.advise(rule, key + "/" + kind, detail + (" (+%d more)" % (len(diffs[st]) - 1) if len(diffs[st]) > 1 else ""),
+                       "%s tokenizer, %s" % (which, st))
         else:
             ctx.ob(rule, key, True, "%d cells equal the reference pointwise" % len(new.get(st) or []))
     return n
